@@ -1,6 +1,6 @@
 (* C13 — the faithful model refines the abstract specification (per-table snapshot variant) on every
-   program without ROLLBACK TO SAVEPOINT in which no statement looks up a key its own transaction
-   deleted; every interleaving of sessions; the spec's COMMIT verdicts are the engine's (proofs). *)
+   program without ROLLBACK TO SAVEPOINT; every interleaving of sessions; the spec's COMMIT verdicts
+   are the engine's (proofs). *)
 From V Require Import SQLTx.Model SQLTx.Spec SQLTx.Lemmas SQLTx.Atomic SQLTx.Counters.
 From Coq Require Import ZifyN ZifyNat ZifyBool.
 
@@ -66,21 +66,33 @@ Section WithDb.
   Lemma Rcore_mget t pk x y :
     Rcore x y ->
     Rcore (fst (mget d last t pk x)) (stouch sd t y) /\
-    (own_deleted t pk (x_log x) = false -> snd (mget d last t pk x) = s_live_at t pk (stouch sd t y)).
+    snd (mget d last t pk x) && negb (own_deleted t pk (x_log x)) = s_live_at t pk (stouch sd t y).
   Proof.
     intros R. pose proof (Rcore_touch t x y R) as R'. split.
     - destruct (mget_fields d last t pk x) as [G1 [G2 [G3 [G4 [G5 G6]]]]].
       destruct (touch_fields d last t x) as [T1 [T2 [T3 [T4 T5]]]].
       eapply Rcore_ext; [| | | | |exact R']; congruence.
-    - intros Hod. destruct R' as [_ [_ [_ [R4 _]]]].
+    - destruct R' as [_ [_ [_ [R4 _]]]].
       unfold s_live_at. rewrite (swork_mview _ _ t R4). unfold mget, mview.
       destruct (touch_fields d last t x) as [T1 _]. rewrite T1.
       destruct (touch_snap t x) as [sn Esn]. rewrite Esn.
       unfold strip_tbl. rewrite (afind_map strip). rewrite afind_view.
-      destruct (own_written t pk (x_log x)); simpl.
-      + rewrite Hod. reflexivity.
-      + destruct (afind pk (sn_rows sn)) as [c|]; simpl; [|reflexivity].
+      destruct (own_written t pk (x_log x)) eqn:Eo; simpl.
+      + reflexivity.
+      + rewrite (own_deleted_not_written _ _ _ Eo).
+        destruct (afind pk (sn_rows sn)) as [c|]; simpl; [|reflexivity].
         destruct (c_del c); reflexivity.
+  Qed.
+
+  Lemma Rcore_exists t pk x y :
+    Rcore x y ->
+    Rcore (fst (m_exists d last t pk x)) (stouch sd t y) /\
+    snd (m_exists d last t pk x) = s_live_at t pk (stouch sd t y).
+  Proof.
+    intros R. destruct (Rcore_mget t pk x y R) as [R1 Hf].
+    destruct (mget_fields d last t pk x) as [G1 _].
+    unfold m_exists. destruct (mget d last t pk x) as [x1 f]. simpl in *.
+    split; [exact R1|]. rewrite G1. exact Hf.
   Qed.
 
   Lemma stouch_idem t y : stouch sd t (stouch sd t y) = stouch sd t y.
@@ -129,15 +141,13 @@ Section WithDb.
   Qed.
 
   Lemma Rcore_put_row isins t pk v x y :
-    Rcore x y -> own_deleted t pk (x_log x) = false ->
+    Rcore x y ->
     rel_opt (m_put_row d last isins t pk v x) (s_put_row sd isins t pk v y).
   Proof.
-    intros R Hod. unfold m_put_row, s_put_row.
+    intros R. unfold m_put_row, s_put_row.
     pose proof (Rcore_note_pk t pk x y R) as R1.
-    destruct (note_pk_fields t pk x) as [N1 _].
-    destruct (Rcore_mget t pk (note_pk t pk x) y R1) as [R2 Hf].
-    rewrite N1 in Hf. specialize (Hf Hod).
-    destruct (mget d last t pk (note_pk t pk x)) as [x2 found]. simpl in *.
+    destruct (Rcore_exists t pk (note_pk t pk x) y R1) as [R2 Hf].
+    destruct (m_exists d last t pk (note_pk t pk x)) as [x2 found]. simpl in *.
     destruct R as [_ [_ [R3 _]]]. rewrite R3, <- Hf.
     destruct (negb found && (autoinc t && (pk <=? tg t (x_maxpk x))%Z)); [exact I|].
     destruct (isins && found); [exact I|].
@@ -150,18 +160,15 @@ Section WithDb.
   Qed.
 
   Lemma Rcore_ins_auto t v x y :
-    Rcore x y -> own_deleted t (tg t (x_maxpk x) + 1)%Z (x_log x) = false ->
-    rel_opt (m_ins_auto d last t v x) (s_ins_auto sd t v y).
+    Rcore x y -> rel_opt (m_ins_auto d last t v x) (s_ins_auto sd t v y).
   Proof.
-    intros R Hod. unfold m_ins_auto, s_ins_auto. destruct (autoinc t); [|exact I].
+    intros R. unfold m_ins_auto, s_ins_auto. destruct (autoinc t); [|exact I].
     assert (Em : y_maxpk y = x_maxpk x) by apply R. rewrite Em.
     set (pk := (tg t (x_maxpk x) + 1)%Z) in *.
     pose proof (Rcore_set_maxpk (ts t pk (x_maxpk x)) x y R) as R0.
     pose proof (Rcore_note_pk t pk _ _ R0) as R1.
-    destruct (note_pk_fields t pk (set_maxpk (ts t pk (x_maxpk x)) x)) as [N1 _].
-    destruct (Rcore_mget t pk _ _ R1) as [R2 Hf].
-    rewrite N1 in Hf. specialize (Hf Hod).
-    destruct (mget d last t pk (note_pk t pk (set_maxpk (ts t pk (x_maxpk x)) x))) as [x2 found]. simpl in *.
+    destruct (Rcore_exists t pk _ _ R1) as [R2 Hf].
+    destruct (m_exists d last t pk (note_pk t pk (set_maxpk (ts t pk (x_maxpk x)) x))) as [x2 found]. simpl in *.
     rewrite <- Hf. destruct found; [exact I|].
     apply Rcore_mwrite. exact R2.
   Qed.
@@ -194,25 +201,14 @@ Section WithDb.
     apply Rcore_mwrite. exact H.
   Qed.
 
-  Lemma own_deleted_after_ins t pk pk2 v log :
-    own_deleted t pk2 log = false -> own_deleted t pk2 (log ++ [W t pk WIns v]) = false.
+  Lemma mdml_refines o x y : Rcore x y -> rel_opt (mdml d last o x) (sdml sd o y).
   Proof.
-    intros H. rewrite own_deleted_app. simpl.
-    destruct (i3_eqb t t && (pk =? pk2)%Z); [reflexivity|exact H].
-  Qed.
-
-  Lemma mdml_refines o x y :
-    Rtx x y -> get_quirk x o = false -> rel_opt (mdml d last o x) (sdml sd o y).
-  Proof.
-    intros [R C] Hq. destruct o; simpl in *; try exact I.
+    intros R. destruct o; simpl in *; try exact I.
     - apply Rcore_put_row; assumption.
-    - apply orb_false_elim in Hq as [Hq1 Hq2].
-      pose proof (Rcore_put_row true t pk1 v1 x y R Hq1) as H1.
-      destruct (m_put_row d last true t pk1 v1 x) as [x1|] eqn:E1;
+    - pose proof (Rcore_put_row true t pk1 v1 x y R) as H1.
+      destruct (m_put_row d last true t pk1 v1 x) as [x1|];
         destruct (s_put_row sd true t pk1 v1 y) as [y1|]; simpl in *; try contradiction; [|exact I].
-      apply Rcore_put_row; [exact H1|].
-      destruct (put_row_some _ _ _ _ _ _ _ _ E1 C) as [_ L]. rewrite L.
-      apply own_deleted_after_ins. exact Hq2.
+      apply Rcore_put_row. exact H1.
     - apply Rcore_ins_auto; assumption.
     - apply Rcore_put_row; assumption.
     - unfold m_update, s_update.
@@ -226,14 +222,14 @@ Section WithDb.
   Qed.
 
   Lemma mdml_refines_tx o x y :
-    Rtx x y -> get_quirk x o = false ->
+    Rtx x y ->
     match mdml d last o x, sdml sd o y with
     | Some x', Some y' => Rtx x' y'
     | None, None => True
     | _, _ => False
     end.
   Proof.
-    intros R Hq. pose proof (mdml_refines o x y R Hq) as H.
+    intros R. pose proof (mdml_refines o x y (proj1 R)) as H.
     destruct (mdml d last o x) as [x'|] eqn:E; destruct (sdml sd o y) as [y'|]; simpl in H; try contradiction; try exact I.
     split; [exact H|]. eapply mdml_cinv; eauto. apply R.
   Qed.
@@ -327,9 +323,6 @@ Proof. intros [[_ [R2 _]] C]. unfold scnt. rewrite R2. symmetry. exact C. Qed.
 Definition step_rel (d : db) (r : loc * obs) (sr : sloc * obs) : Prop :=
   snd r = snd sr /\ sl_db (fst sr) = tmap strip_tbl (l_db (fst r)) /\ Rox (l_tx (fst r)) (sl_tx (fst sr)).
 
-Lemma quirk_nil x o : x_log x = [] -> get_quirk x o = false.
-Proof. intros H. destruct o; simpl; rewrite ?H; reflexivity. Qed.
-
 Lemma mbegin_log d last ro : x_log (mbegin d last ro) = [].
 Proof.
   unfold mbegin. destruct ro; [reflexivity|].
@@ -364,8 +357,7 @@ Lemma idle_dml_refines d last o :
      end).
 Proof.
   intros Hd. unfold lverdict. rewrite Hd.
-  pose proof (mdml_refines_tx d last o _ _ (begin_refines d last false)
-                              (quirk_nil _ o (mbegin_log d last false))) as H.
+  pose proof (mdml_refines_tx d last o _ _ (begin_refines d last false)) as H.
   destruct (mdml d last o (mbegin d last false)) as [x|];
     destruct (sdml (tmap strip_tbl d) o (sbegin false (tmap strip_tbl d) false)) as [y|]; try contradiction.
   - rewrite (commit_res_refines d last x y H).
@@ -386,14 +378,13 @@ Qed.
 
 Lemma mlocal_refines d last ox oy o :
   Rox ox oy -> not_rbto o = true ->
-  (match ox with Some x => get_quirk x o = false | None => True end) ->
   step_rel d (mlocal d last ox o) (slocal false (tmap strip_tbl d) oy o (lverdict d last ox o)).
 Proof.
-  intros R Hn Hq.
+  intros R Hn.
   destruct ox as [x|], oy as [y|]; simpl in R; try contradiction.
   - (* inside a transaction *)
     unfold mlocal, slocal, mlocal_tx, slocal_tx.
-    assert (Hdml : forall o', get_quirk x o' = false ->
+    assert (Hdml : forall o',
               step_rel d
                 (match mdml d last o' x with
                  | Some x' => (L d last (Some x'), Ob false [] true false (Some (x_cnt x')) None (vis d))
@@ -401,7 +392,7 @@ Proof.
                 (match sdml (tmap strip_tbl d) o' y with
                  | Some y' => (SL (tmap strip_tbl d) (Some y'), Ob false [] true false (Some (scnt y')) None (svis (tmap strip_tbl d)))
                  | None => (SL (tmap strip_tbl d) None, sob_fail (tmap strip_tbl d) true) end)).
-    { intros o' Hq'. pose proof (mdml_refines_tx d last o' x y R Hq') as H.
+    { intros o'. pose proof (mdml_refines_tx d last o' x y R) as H.
       destruct (mdml d last o' x) as [x'|]; destruct (sdml (tmap strip_tbl d) o' y) as [y'|]; try contradiction; sr3.
       - rewrite svis_strip, (scnt_of x' y' H). reflexivity.
       - reflexivity.
@@ -414,12 +405,12 @@ Proof.
     destruct o; cbv beta iota zeta.
     + sr3; [rewrite svis_strip, (scnt_of x y R); reflexivity|reflexivity|exact R].
     + apply Hfail.
-    + apply Hdml. exact Hq.
-    + apply Hdml. exact Hq.
-    + apply Hdml. exact Hq.
-    + apply Hdml. exact Hq.
-    + apply Hdml. exact Hq.
-    + apply Hdml. exact Hq.
+    + apply Hdml.
+    + apply Hdml.
+    + apply Hdml.
+    + apply Hdml.
+    + apply Hdml.
+    + apply Hdml.
     + (* SELECT *)
       unfold s_select.
       destruct R as [Rc C].
@@ -487,15 +478,13 @@ Lemma mverdict_local st p : mverdict st p = lverdict (m_db st) (m_last st) (tg (
 Proof. reflexivity. Qed.
 
 Lemma step_refines m s p :
-  Rst m s -> not_rbto (snd p) = true -> quirk_step m p = false ->
+  Rst m s -> not_rbto (snd p) = true ->
   snd (mstep m p) = snd (sstep false s p (mverdict m p)) /\
   Rst (fst (mstep m p)) (fst (sstep false s p (mverdict m p))).
 Proof.
-  intros [Hd Hs] Hn Hq. destruct p as [i o]. simpl in Hn.
+  intros [Hd Hs] Hn. destruct p as [i o]. simpl in Hn.
   rewrite mverdict_local. unfold mstep, sstep. simpl fst. simpl snd. rewrite Hd.
-  assert (Hq' : match tg i (m_sess m) with Some x => get_quirk x o = false | None => True end).
-  { unfold quirk_step in Hq. simpl in Hq. destruct (tg i (m_sess m)); [exact Hq|exact I]. }
-  pose proof (mlocal_refines (m_db m) (m_last m) _ _ o (Hs i) Hn Hq') as H.
+  pose proof (mlocal_refines (m_db m) (m_last m) _ _ o (Hs i) Hn) as H.
   destruct (mlocal (m_db m) (m_last m) (tg i (m_sess m)) o) as [l ob].
   destruct (slocal false (tmap strip_tbl (m_db m)) (tg i (s_sess s)) o
                    (lverdict (m_db m) (m_last m) (tg i (m_sess m)) o)) as [sl sob].
@@ -506,13 +495,12 @@ Proof.
 Qed.
 
 Theorem refinement_proof : forall steps m s,
-  Rst m s -> no_rbto steps = true -> quirk_free m steps = true ->
+  Rst m s -> no_rbto steps = true ->
   mtrace m steps = strace false s (with_verdicts m steps).
 Proof.
-  induction steps as [|p r IH]; intros m s R Hn Hq; [reflexivity|].
-  simpl in Hn, Hq. apply andb_prop in Hn as [Hn1 Hn2]. apply andb_prop in Hq as [Hq1 Hq2].
-  apply negb_true_iff in Hq1.
+  induction steps as [|p r IH]; intros m s R Hn; [reflexivity|].
+  simpl in Hn. apply andb_prop in Hn as [Hn1 Hn2].
   assert (Hn1' : not_rbto (snd p) = true) by (destruct p as [i o]; destruct o; simpl in *; try reflexivity; discriminate).
-  destruct (step_refines m s p R Hn1' Hq1) as [Ho Rn].
+  destruct (step_refines m s p R Hn1') as [Ho Rn].
   simpl. rewrite Ho. f_equal. apply IH; assumption.
 Qed.
